@@ -124,12 +124,23 @@ class SymEx:
         self.npaths = 0
         self.suppress = 0
         self.in_comp = 0
+        self._gcache = {}
+        self.closures = {}
+        self.dyn = {}
 
     # ------------------------------------------------------------------ entry
-    def run(self, fn, args=None, self_term=None, state=None):
-        """Summarise `fn`.  args: {param: term}; missing params become free vars (defaults not applied)."""
+    def run(self, fn, args=None, self_term=None, state=None, dyn=None):
+        """Summarise `fn`.  args: {param: term}; missing params become free vars (defaults not applied).
+        dyn: the class of the object `self` denotes when it is more specific than the class defining fn (an inherited method run on a subclass)."""
         st = state or State()
         st = st.copy()
+        if dyn is None and fn.cls is not None and self_term is not None:
+            if self_term[0] in ('new', 'obj'):
+                dyn = self.M.cls(self_term[1])
+            elif st.env.get('self') == self_term:
+                dyn = self.dyn.get(len(self.frames))
+        if dyn is not None and fn.cls is not None and fn.cls not in dyn.mro():
+            dyn = None
         env = {}
         ps = fn.params
         for i, p in enumerate(ps):
@@ -144,9 +155,11 @@ class SymEx:
         outer_env = st.env
         st.env = env
         self.frames.append(fn)
+        self.dyn[len(self.frames)] = dyn
         try:
             res = self.block(fn.body(), st)
         finally:
+            self.dyn.pop(len(self.frames), None)
             self.frames.pop()
         out = []
         for s, oc in res:
@@ -253,6 +266,12 @@ class SymEx:
                         xs = self.assign(t, v, x, s)
                         # assignment targets never fork in this code base
                         x = xs
+                        if isinstance(t, ast.Name):
+                            if isinstance(s.value, ast.Attribute) and v[0] == 'attr':
+                                x.env['@ast:' + t.id] = ('ast', id(s.value))     # price_of = self.handler.get_price : a bound method kept in a local
+                                self.closures[id(s.value)] = (None, s.value, None, self.fn)
+                            else:
+                                x.env.pop('@ast:' + t.id, None)
                 out.append((x, None))
             return out
         if isinstance(s, ast.AnnAssign):
@@ -450,7 +469,15 @@ class SymEx:
                 b.env[n] = ('lc', n, lid)
             # loop-carried heap locations: first pass to discover which are written
             if is_for:
-                b = self.assign(s.target, ('elem', it, lid), b, s, silent=True)
+                bind_val = ('elem', it, lid)
+                if it[0] == 'comp' and it[1] in ('gen', 'list') and len(it[3]) == 1 and not it[3][0][2] and all(z[0] == 'bv' for z in it[3][0][0]):
+                    # for y in (f(x) for x in src): ...   ==   for x in src: y = f(x); ...
+                    shape, src, _ = it[3][0]
+                    el = ('elem', src, lid)
+                    m_ = {shape[0]: el} if len(shape) == 1 else {bv: ('sub', el, num(k)) for k, bv in enumerate(shape)}
+                    bind_val = T.replace(it[2], lambda z: m_.get(z) if z[0] == 'bv' else None)
+                    it = src
+                b = self.assign(s.target, bind_val, b, s, silent=True)
                 test_t = None
             probe = self._loop_body(s, b, is_for)
             written = set()
@@ -509,6 +536,20 @@ class SymEx:
                 test_t = tt[0][1] if tt else None
             y = y.ev(Ev('loop', id=lid, iter=it if is_for else test_t, is_for=is_for, paths=paths, site=self.site(s), fn=self.fn.qn,
                         carried=sorted(carried), node=s, pre_env={n: x.env[n] for n in carried}))
+            # a pure search loop  `for x in it: if c(x): raise/return`  is the test any(c(x) for x in it)
+            search = None
+            if is_for and len(paths) == 2 and not carried and not written:
+                stay = [p for p in paths if p.outcome == 'fall']
+                leave = [p for p in paths if p.outcome in ('raise', 'return')]
+                if len(stay) == 1 and len(leave) == 1 and len(stay[0].conds) == 1 and len(leave[0].conds) == 1 and stay[0].conds[0][0] == leave[0].conds[0][0] \
+                        and stay[0].conds[0][1] != leave[0].conds[0][1] and not [e for e in stay[0].events if e.kind in ('write', 'call') and e.d.get('layer', 1) != 0]:
+                    c, v = leave[0].conds[0][0], leave[0].conds[0][1]
+                    bv = ('bv', self.bv_depth)
+                    el = ('elem', it, lid)
+                    body_c = T.replace(c if v else mk_not(c), lambda z: bv if z == el else None)
+                    if not any(z[0] == 'elem' and z[-1] == lid for z in T.subterms(body_c)):
+                        search = ('call', ('ext', 'ANY'), (('comp', 'gen', body_c, (((bv,), it, ()),)),), ())
+                        y.conds = y.conds + ((search, False, self.site(s)),)
             out.append((y, None))
             # exits from inside the body leave the function / raise
             for p in paths:
@@ -516,7 +557,10 @@ class SymEx:
                     z = x.copy()
                     z = z.ev(Ev('loop', id=lid, iter=it if is_for else test_t, is_for=is_for, paths=[p], site=self.site(s), fn=self.fn.qn,
                                 carried=sorted(carried), node=s, partial=True, all_paths=paths))
-                    z.conds = z.conds + tuple((c, v, sx) for c, v, sx in p.conds)
+                    if search is not None:
+                        z.conds = z.conds + ((search, True, self.site(s)),)
+                    else:
+                        z.conds = z.conds + tuple((c, v, sx) for c, v, sx in p.conds)
                     if p.outcome == 'raise':
                         z.exc = p.state.exc
                         out.append((z, None))
@@ -651,7 +695,10 @@ class SymEx:
 
     def try_(self, s, st):
         out = []
+        before = getattr(self, '_modelled_lookups', 0)
         body = self.block(s.body, st)
+        # a body made only of modelled table lookups raises nothing the model does not show
+        only_lookups = getattr(self, '_modelled_lookups', 0) > before and not any(isinstance(n, ast.Call) for b_ in s.body for n in ast.walk(b_))
         catch_all = any(h.type is None or (isinstance(h.type, ast.Name) and h.type.id in ('Exception', 'BaseException')) for h in s.handlers)
         for x, oc in body:
             if x.exc is not None:
@@ -659,7 +706,8 @@ class SymEx:
                 handled = False
                 for h in s.handlers:
                     hn = ast.unparse(h.type) if h.type is not None else None
-                    if hn is None or hn in ('Exception', 'BaseException') or hn == exc_cls:
+                    hns = [ast.unparse(z) for z in h.type.elts] if isinstance(h.type, ast.Tuple) else [hn]
+                    if hn is None or any(z in ('Exception', 'BaseException', 'LookupError' if exc_cls in ('KeyError', 'IndexError') else '-') or z == exc_cls for z in hns):
                         y = x.copy(exc=None)
                         if h.name:
                             y.env[h.name] = ('exc', exc_cls)
@@ -674,7 +722,7 @@ class SymEx:
                 else:
                     out.append((x, oc))
         # an exception raised by a non-modelled call inside the body: handler entered from the try's start state
-        for h in s.handlers:
+        for h in ([] if only_lookups else s.handlers):
             y = st.copy()
             hn = ast.unparse(h.type) if h.type is not None else 'BaseException'
             y = y.ev(Ev('except', exc=hn, site=self.site(h), fn=self.fn.qn))
@@ -721,7 +769,7 @@ class SymEx:
             if v[0] in ('tuple', 'list') and len(v[1]) == len(t.elts):
                 items = v[1]
             for i, e in enumerate(t.elts):
-                x = self.assign(e, items[i] if items is not None else ('sub', v, num(i)), x, node, how, silent=silent)
+                x = self.assign(e, items[i] if items is not None else self.subscript(v, num(i), x), x, node, how, silent=silent)
             return x
         if isinstance(t, ast.Starred):
             return self.assign(t.value, ('starred', v), st, node, how, silent=silent)
@@ -816,12 +864,20 @@ class SymEx:
         if isinstance(t, str):
             if t.startswith('mod:'):
                 return ('mod', t[4:])
+            gv = self.M.global_value(fn.mod, e.id)
+            if gv is not None:
+                v = self._global_term(gv[0], e.id, gv[1])
+                if v is not None:
+                    return v
             name = t[4:]
             return ('ext', T.API_CLASS.get(name, name))
         g = self.M.mod_globals.get(fn.mod, {}).get(e.id)
         if g is not None and isinstance(g, ast.Constant):
             return self.const(g)
         if g is not None:
+            v = self._global_term(fn.mod, e.id, g)
+            if v is not None:
+                return v
             return ('attr', ('mod', fn.mod), e.id)
         host = fn
         while host is not None:
@@ -830,6 +886,30 @@ class SymEx:
             host = host.parent
         b = 'builtins.' + e.id
         return ('ext', T.API_CLASS.get(b, b)) if e.id in dir(__builtins__) or b in T.API_CLASS or True and e.id in _BUILTINS else ('var', e.id)
+
+    def _global_term(self, mod, name, node):
+        """value of a module-level table (literal containers, named tuples, tables of functions/lambdas, constructor calls on literals), else None"""
+        key = (mod, name)
+        if key in self._gcache:
+            return self._gcache[key]
+        self._gcache[key] = None
+        v = None
+        if _table_like(node) and not isinstance(node, ast.Name):
+            self.frames.append(self.M.module_func(mod))
+            saved = self.bv_depth
+            try:
+                r = self.ev(node, State())
+                if len(r) == 1 and r[0][0].exc is None:
+                    v = r[0][1]
+            except Undecided:
+                v = None
+            finally:
+                self.frames.pop()
+                self.bv_depth = saved
+            if v is not None and v[0] in ('havoc',):
+                v = None
+        self._gcache[key] = v
+        return v
 
     def const(self, e):
         v = e.value
@@ -855,7 +935,10 @@ class SymEx:
             out = []
             for x, vs in self.seq([e.value, e.slice], st):
                 b, i = vs
-                out.append((x, self.subscript(b, i, x)))
+                if x.exc is None and b[0] == 'dict' and isinstance(e.ctx, ast.Load) and i[0] not in ('str', 'num', 'const', 'slice') and _const_keyed(b):
+                    out.extend(self.dict_lookup(b, i, x, e, None))
+                else:
+                    out.append((x, self.subscript(b, i, x)))
             return out
         if isinstance(e, ast.Slice):
             parts = [p for p in (e.lower, e.upper, e.step)]
@@ -911,7 +994,7 @@ class SymEx:
                     out.extend(self.ev(e.body if b else e.orelse, y))
             return out
         if isinstance(e, ast.Call):
-            return self.call(e, st)
+            return [(x, _as_nt(v)) for x, v in self.call(e, st)]
         if isinstance(e, (ast.Tuple, ast.List, ast.Set)):
             kind = {ast.Tuple: 'tuple', ast.List: 'list', ast.Set: 'set'}[type(e)]
             return [(x, (kind, tuple(vs))) for x, vs in self.seq(e.elts, st)]
@@ -963,7 +1046,10 @@ class SymEx:
             finally:
                 self.bv_depth = base
             body = res[0][1] if len(res) == 1 else ('havoc', 'lambda', self.site(e))
-            return [(st, ('lambda', len(ps), body))]
+            lam = ('lambda', len(ps), body)
+            # the closure itself, for when the lambda is CALLED (its effects then belong to the calling path)
+            self.closures[id(lam)] = (lam, e, dict(st.env), self.fn)
+            return [(st, lam)]
         if isinstance(e, ast.JoinedStr):
             parts = []
             cur = st
@@ -1044,16 +1130,69 @@ class SymEx:
             n = int(i[1])
             if -len(b[1]) <= n < len(b[1]) and not any(z[0] == 'starred' for z in b[1]):
                 return b[1][n]
-        if b[0] == 'dict' and i[0] in ('str', 'num'):
+        if b[0] == 'dict' and i[0] in ('str', 'num', 'const'):
             for kk, v in b[1]:
                 if kk == i:
                     return v
+        if b[0] == 'new' and b[1] in NT_FIELDS and i[0] == 'num' and i[1].denominator == 1:
+            fs = NT_FIELDS[b[1]]
+            n = int(i[1])
+            if -len(fs) <= n < len(fs):
+                return dict(b[2]).get(fs[n], k)
         if b[0] == 'comp' and b[1] == 'dict' and len(b[3]) == 1 and not b[3][0][2] and b[2][0] == 'tuple' and len(b[3][0][0]) == 1 \
                 and b[2][1][0] == b[3][0][0][0]:
             # {k: f(k) for k in keys}[i]  ==  f(i)   (for i among the keys)
             bv = b[3][0][0][0]
             return T.replace(b[2][1][1], lambda t: i if t == bv else None)
         return k
+
+    def dict_lookup(self, b, i, st, node, default):
+        """TABLE[key] / TABLE.get(key) on a literal table with a symbolic key: one outcome per entry (key == k), then the miss (KeyError, or `default`).
+        Inside a comprehension the outcome stays a conditional term."""
+        def eq(k):
+            if k == ('const', 'True'):
+                return i
+            if k == ('const', 'False'):
+                return mk_not(i)
+            return self.compare(ast.Eq(), i, k)
+        miss = default if default is not None else ('sub', b, i)
+        if self.in_comp or self.suppress:
+            t = miss
+            for k, v in reversed(b[1]):
+                t = ('ite', eq(k), v, t)
+            return [(st, t)]
+        self._modelled_lookups = getattr(self, '_modelled_lookups', 0) + 1
+        out, pending = [], [st]
+        for k, v in b[1]:
+            nxt = []
+            for s in pending:
+                for y, bv in self.decide(eq(k), s, node):
+                    if bv:
+                        out.append((y, v))
+                    else:
+                        nxt.append(y)
+            pending = nxt
+        keys = [k for k, _ in b[1]]
+        boolean = ('const', 'True') in keys and ('const', 'False') in keys and i[0] in ('cmp', 'not', 'and', 'or') or \
+            (i[0] == 'call' and i[1] == ('ext', 'BOOL'))
+        for s in pending:
+            if boolean and ('const', 'True') in keys and ('const', 'False') in keys:
+                continue
+            # a preceding membership test on the same table rules the miss out (or in)
+            known = None
+            for c, v, _ in s.conds:
+                if c[0] == 'cmp' and c[1] == 'in' and c[2] == i and (c[3] == b or (c[3][0] in ('tuple', 'list', 'set', 'dict') and
+                                                                                 set(z if c[3][0] != 'dict' else z[0] for z in c[3][1]) == set(keys))):
+                    known = v
+            if known is True:
+                continue
+            if default is not None:
+                out.append((s, default))
+            else:
+                y = s.ev(Ev('raise', exc='KeyError', site=self.site(node), fn=self.fn.qn, args=(i,)))
+                y.exc = ('raise', 'KeyError', self.site(node), self.fn.qn)
+                out.append((y, ZERO))
+        return out
 
     def attr(self, e, st):
         out = []
@@ -1086,6 +1225,11 @@ class SymEx:
                 out.append((x, k))
                 continue
             props = self.M.property_targets(self.fn, e, self.tenv()) if isinstance(e.ctx, ast.Load) else []
+            dyn = self.dyn.get(len(self.frames))
+            if dyn is not None and isinstance(e.value, ast.Name) and e.value.id == 'self' and b == x.env.get('self') and isinstance(e.ctx, ast.Load):
+                m = dyn.lookup(e.attr)
+                if m is not None and m.is_property:
+                    props = [m]
             if len(props) == 1 and not self.suppress and self.policy(self.fn, props[0], len(self.frames)):
                 out.extend(self.inline(props[0], {}, b, x, e))
                 continue
@@ -1232,6 +1376,28 @@ class SymEx:
     def call(self, e, st):
         f = e.func
         fn = self.fn
+        if isinstance(f, ast.Name) and f.id in ('map', 'filter') and f.id not in st.env and self.M.resolve_name(fn.mod, f.id) is None \
+                and len(e.args) >= 2 and not e.keywords and not any(isinstance(a, ast.Starred) for a in e.args):
+            # map(F, IT) is the generator (F(x) for x in IT); filter(F, IT) is (x for x in IT if F(x))
+            names = ['_m%d_%d' % (getattr(e, 'lineno', 0), k) for k in range(len(e.args) - 1)]
+            if len(e.args) == 2:
+                tgt, it = ast.Name(id=names[0], ctx=ast.Store()), e.args[1]
+            else:
+                tgt = ast.Tuple(elts=[ast.Name(id=n, ctx=ast.Store()) for n in names], ctx=ast.Store())
+                it = ast.Call(func=ast.Name(id='zip', ctx=ast.Load()), args=list(e.args[1:]), keywords=[])
+            loads = [ast.Name(id=n, ctx=ast.Load()) for n in names]
+            if f.id == 'map':
+                elt, ifs = ast.Call(func=e.args[0], args=loads, keywords=[]), []
+            elif isinstance(e.args[0], ast.Constant) and e.args[0].value is None:
+                elt, ifs = loads[0], [loads[0]]
+            else:
+                elt, ifs = loads[0], [ast.Call(func=e.args[0], args=loads, keywords=[])]
+            if f.id == 'map' or len(e.args) == 2:
+                g = ast.GeneratorExp(elt=elt, generators=[ast.comprehension(target=tgt, iter=it, ifs=ifs, is_async=0)])
+                for n in ast.walk(g):
+                    if not hasattr(n, 'lineno'):
+                        ast.copy_location(n, e)
+                return self.ev(g, st)
         # receiver / function value first, then arguments (Python evaluation order)
         out = []
         recv_states = [(st, None)]
@@ -1249,8 +1415,22 @@ class SymEx:
                 if x.exc is not None:
                     out.append((x, ZERO))
                     continue
-                args = [('starred', v) if isinstance(a, ast.Starred) else v for a, v in zip(argn, vs[:len(argn)])]
-                kwargs = [(k.arg, v) for k, v in zip(kwn, vs[len(argn):])]
+                args = []
+                for a, v in zip(argn, vs[:len(argn)]):
+                    if isinstance(a, ast.Starred):
+                        items = _seq_items(v)
+                        if items is not None:
+                            args.extend(items)           # f(*(a, b)) == f(a, b)
+                        else:
+                            args.append(('starred', v))
+                    else:
+                        args.append(v)
+                kwargs = []
+                for k, v in zip(kwn, vs[len(argn):]):
+                    if k.arg is None and v[0] == 'dict' and all(kk is not None and kk[0] == 'str' for kk, _ in v[1]):
+                        kwargs.extend((kk[1], vv) for kk, vv in v[1])        # f(**{'a': x}) == f(a=x)
+                    else:
+                        kwargs.append((k.arg, v))
                 out.extend(self.call1(e, recv, args, kwargs, x))
         return out
 
@@ -1267,6 +1447,27 @@ class SymEx:
                 g = host.nested.get(fv[1]) if host is not None else None
                 if g is not None:
                     return self.inline(g, self.bind(g, args, kwargs, skip_self=False), None, st, e)
+        # a function VALUE being called: a local holding a function/lambda/named-tuple type, or the result of a table lookup  TABLE[key](...)
+        if (isinstance(f, ast.Name) and (f.id in st.env or self.M.global_value(fn.mod, f.id) is not None)) or isinstance(f, (ast.Subscript, ast.Call, ast.IfExp)):
+            fvs = self.ev(f, st)
+            if len(fvs) > 1 or (len(fvs) == 1 and _callable_value(fvs[0][1], self)):
+                out = []
+                for y, fv in fvs:
+                    if y.exc is not None:
+                        out.append((y, ZERO))
+                    elif _callable_value(fv, self):
+                        out.extend(self.call_value(e, fv, args, kwargs, y))
+                    else:
+                        out.extend(self.call_opaque(e, fv, args, kwargs, y))
+                return out
+        if is_nt_attr(recv, f):
+            return self.nt_method(e, recv, f.attr, args, kwargs, st)
+        if isinstance(f, ast.Name) and ('@ast:' + f.id) in st.env and st.env.get(f.id, ZERO)[0] == 'attr':
+            clo = self.closures.get(st.env['@ast:' + f.id][1])
+            if clo is not None and clo[3] is self.fn:
+                # the local holds a bound method: call it through the expression that produced it, so that typing resolves the callee
+                node = ast.copy_location(ast.Call(func=clo[1], args=list(e.args), keywords=list(e.keywords)), e)
+                return self.call(node, st)
         targets, how, layer = self.M.resolve_any(fn, e, self.tenv())
         if not targets and isinstance(f, ast.Name) and f.id in st.env and st.env[f.id][0] == 'attr':
             # a bound method passed around as a value: getter = self.get_portfolio_total_equity ; getter(pid)
@@ -1277,6 +1478,11 @@ class SymEx:
                     if m is not None:
                         targets, how, layer, recv = [m], 'typed', 1, bm[1]
                         break
+        dyn = self.dyn.get(len(self.frames))
+        if dyn is not None and isinstance(f, ast.Attribute) and isinstance(f.value, ast.Name) and f.value.id == 'self' and recv == st.env.get('self'):
+            m = dyn.lookup(f.attr)
+            if m is not None and not m.is_property:
+                targets, how, layer = [m], 'typed', 1
         # a receiver whose symbolic value is a constructed object resolves exactly
         if recv is not None and recv[0] in ('new', 'obj'):
             c = self.M.cls(recv[1])
@@ -1330,9 +1536,10 @@ class SymEx:
                     inner = ('call', ('ext', name), tuple(args), ())
                     return [(st, ('call', ('ext', 'INT'), (inner,), ()))]
                 args = _canon_reducer_args(('ext', name), args)
+                name, args, kws = _canon_ext_call(name, args, kws)
                 res = ('call', ('ext', name), tuple(args), kws)
                 x = st.ev(Ev('call', callee=['ext:' + name], args=dict(enumerate(args)), site=site, fn=fn.qn, how=how, layer=0,
-                             result=res, node=e, recv=None, kwargs=dict(kwargs)))
+                             result=res, node=e, recv=None, kwargs=dict(kws)))
                 return [(x, res)]
             if recv is not None and recv[0] == 'ext':
                 name = recv[1] + '.' + f.attr
@@ -1346,6 +1553,15 @@ class SymEx:
                 return [(x, res)]
             if f.attr == 'format' and recv is not None and recv[0] == 'str' and not kws and recv[1].count('{}') == len(args) and '{' not in recv[1].replace('{}', ''):
                 return [(st, ('fmt', ('str', recv[1].replace('%', '%%').replace('{}', '%s')), ('tuple', tuple(args))))]
+            if f.attr == 'get' and 1 <= len(args) <= 2 and not kws and recv is not None and recv[0] == 'dict' and _const_keyed(recv) and \
+                    args[0][0] not in ('str', 'num', 'const'):
+                return self.dict_lookup(recv, args[0], st, e, args[1] if len(args) == 2 else NONE)
+            if f.attr == 'get' and 1 <= len(args) <= 2 and not kws and recv is not None and recv[0] == 'dict' and args[0][0] in ('str', 'num', 'const'):
+                for kk, vv in recv[1]:
+                    if kk == args[0]:
+                        return [(st, vv)]
+                if _const_keyed(recv):
+                    return [(st, args[1] if len(args) == 2 else NONE)]
             if f.attr == 'get' and len(args) == 1 and not kws and not _is_queue(self.M, fn, f.value, self.tenv()):
                 # d.get(k): the element when present, None otherwise
                 return [(st, ('call', ('ext', 'GET'), (recv, args[0]), ()))]
@@ -1362,6 +1578,112 @@ class SymEx:
             return [(x, res)]
         r = self.ev(f, st)
         fv = r[0][1] if len(r) == 1 else ('havoc', 'callee', site)
+        return self.call_opaque(e, fv, args, kwargs, st, how)
+
+    def call_value(self, e, fv, args, kwargs, st):
+        """call of a first-class function value"""
+        site = self.site(e)
+        fn = self.fn
+        if fv[0] == 'nt':
+            tname, fields = fv[1], tuple(fv[2].split(','))
+            vals = dict(zip(fields, args))
+            vals.update({k: v for k, v in kwargs if k in fields})
+            dflt = NT_DEFAULTS.get(tname, {})
+            for f_ in fields:
+                if f_ not in vals and f_ in dflt:
+                    vals[f_] = dflt[f_]
+            if all(f_ in vals for f_ in fields) and not any(a[0] == 'starred' for a in args):
+                return [(st, make_nt(tname, [vals[f_] for f_ in fields]))]
+            return self.call_opaque(e, fv, args, kwargs, st)
+        if fv[0] == 'fn' and fv[1] in self.M.funcs:
+            t = self.M.funcs[fv[1]]
+            if t.cls is None or t.is_static:
+                bound = self.bind(t, args, kwargs, skip_self=False)
+                if not self.suppress and self.policy(fn, t, len(self.frames)) and not any(fr.qn == t.qn for fr in self.frames):
+                    return self.inline(t, bound, None, st, e)
+                res = ('call', ('fn', t.qn), tuple(args), tuple(sorted(kwargs, key=lambda kv: str(kv[0]))))
+                x = st.ev(Ev('call', callee=[t.qn], args=bound, site=site, fn=fn.qn, how='func', layer=1, result=res, node=e, recv=None))
+                return [(x, res)]
+        if fv[0] == 'call' and fv[1] in (('ext', 'operator.attrgetter'), ('ext', 'operator.itemgetter'), ('ext', 'operator.methodcaller')) and \
+                len(args) == 1 and not kwargs and len(e.args) == 1 and fv[2] and all(z[0] == 'str' for z in fv[2][:1] if fv[1][1] != 'operator.itemgetter'):
+            # attrgetter('a.b')(x) is x.a.b ; itemgetter(i)(x) is x[i] ; methodcaller('m', *a)(x) is x.m(*a)   -- rebuilt as syntax so that typing and properties apply
+            kind = fv[1][1].split('.')[1]
+            x_ast = e.args[0]
+            if kind == 'attrgetter' and all(z[0] == 'str' for z in fv[2]):
+                def chain(spec):
+                    node = x_ast
+                    for part in spec.split('.'):
+                        node = ast.copy_location(ast.Attribute(value=node, attr=part, ctx=ast.Load()), e)
+                    return node
+                nodes = [chain(z[1]) for z in fv[2]]
+                node = nodes[0] if len(nodes) == 1 else ast.copy_location(ast.Tuple(elts=nodes, ctx=ast.Load()), e)
+                return self.ev(node, st)
+            if kind == 'itemgetter':
+                vals = [self.subscript(args[0], z, st) for z in fv[2]]
+                return [(st, vals[0] if len(vals) == 1 else ('tuple', tuple(vals)))]
+            if kind == 'methodcaller' and isinstance(e.func, ast.Call) and len(e.func.args) >= 1:
+                node = ast.Call(func=ast.Attribute(value=x_ast, attr=fv[2][0][1], ctx=ast.Load()), args=list(e.func.args[1:]), keywords=list(e.func.keywords))
+                for n in ast.walk(node):
+                    if not hasattr(n, 'lineno'):
+                        ast.copy_location(n, e)
+                return self.ev(node, st)
+        if fv[0] == 'lambda':
+            clo = self.closures.get(id(fv))
+            if clo is not None and clo[0] is fv and not self.suppress:
+                _, node, env, host = clo
+                ps = [a.arg for a in node.args.args]
+                if len(args) == len(ps) and not kwargs and not any(a[0] == 'starred' for a in args):
+                    saved = st.env
+                    y = st.copy()
+                    y.env = dict(env)
+                    # late binding: the closure sees the caller's current values of the variables it shares with its defining scope
+                    if host is self.fn:
+                        for k_, v_ in saved.items():
+                            if k_ in y.env:
+                                y.env[k_] = v_
+                    y.env.update(dict(zip(ps, args)))
+                    self.frames.append(host)
+                    try:
+                        res = self.ev(node.body, y)
+                    finally:
+                        self.frames.pop()
+                    out = []
+                    for z, v in res:
+                        z = z.copy()
+                        z.env = dict(saved)
+                        out.append((z, v))
+                    return out
+            if len(args) == fv[1] and not kwargs:
+                # pure beta-reduction of the summarised body
+                base = self.bv_depth
+                m = {('bv', base + k_): a for k_, a in enumerate(args)}
+                return [(st, T.replace(fv[2], lambda z: m.get(z) if z[0] == 'bv' else None))]
+        return self.call_opaque(e, fv, args, kwargs, st)
+
+    def nt_method(self, e, recv, name, args, kwargs, st):
+        if recv[0] == 'nt':
+            tname, fields = recv[1], tuple(recv[2].split(','))
+            if name == '_make' and len(args) == 1:
+                items = _seq_items(args[0])
+                if items is None:
+                    items = [self.subscript(args[0], num(k_), st) for k_ in range(len(fields))]
+                if len(items) == len(fields):
+                    return [(st, make_nt(tname, items))]
+        else:
+            tname = recv[1]
+            fields = NT_FIELDS[tname]
+            d = dict(recv[2])
+            if name == '_replace' and not args:
+                d.update({k: v for k, v in kwargs})
+                return [(st, make_nt(tname, [d[f_] for f_ in fields]))]
+            if name == '_asdict' and not args:
+                return [(st, ('dict', tuple((('str', f_), d[f_]) for f_ in fields)))]
+        return self.call_opaque(e, ('attr', recv, name), args, kwargs, st)
+
+    def call_opaque(self, e, fv, args, kwargs, st, how='value'):
+        site = self.site(e)
+        fn = self.fn
+        kws = tuple(sorted(kwargs, key=lambda kv: str(kv[0])))
         args = _canon_reducer_args(fv, args)
         if fv == ('ext', 'INT') and len(args) == 1 and not kws and args[0][0] == 'call' and args[0][1] == ('ext', 'INT'):
             return [(st, args[0])]
@@ -1371,9 +1693,14 @@ class SymEx:
             return [(st, _EMPTY_FOLD[fv[1]])]
         if fv == ('ext', 'COPY') and len(args) == 1 and not kws:
             return [(st, args[0])]
+        if fv == ('ext', 'DICT') and len(args) == 1 and not kws:
+            dc = _dict_of_zip(args[0], self.bv_depth)
+            if dc is not None:
+                return [(st, dc)]
         if fv[0] == 'ext':
+            name, args, kws = _canon_ext_call(fv[1], args, kws)
+            fv = ('ext', name)
             res = ('call', fv, tuple(args), kws)
-            name = fv[1]
         else:
             res = ('call', ('ext', 'APPLY'), (fv,) + tuple(args), kws)
             name = 'APPLY'
@@ -1389,6 +1716,116 @@ class SymEx:
 
 
 _BUILTINS = set(dir(__builtins__)) if not isinstance(__builtins__, dict) else set(__builtins__)
+
+
+NT_FIELDS = {}      # named-tuple type name -> field names in order
+
+
+def _seq_items(v):
+    if v[0] in ('tuple', 'list') and not any(z[0] == 'starred' for z in v[1]):
+        return list(v[1])
+    if v[0] == 'new' and v[1] in NT_FIELDS:
+        d = dict(v[2])
+        if all(f_ in d for f_ in NT_FIELDS[v[1]]):
+            return [d[f_] for f_ in NT_FIELDS[v[1]]]
+    return None
+
+
+def make_nt(tname, values):
+    return ('new', tname, tuple(sorted(zip(NT_FIELDS[tname], values))))
+
+
+NT_DEFAULTS = {}    # named-tuple type name -> {field: default term}
+
+
+def _dict_of_zip(z, base):
+    """dict(zip(d.keys(), [f(v) for v in d.values()]))  ==  {k: f(v) for k, v in d.items()}"""
+    if not (z[0] == 'call' and z[1] == ('ext', 'ZIP') and len(z[2]) == 2 and not z[3]):
+        return None
+    ks, vs = z[2]
+    while ks[0] == 'call' and ks[1] in (('ext', 'LIST'), ('ext', 'TUPLE')) and len(ks[2]) == 1:
+        ks = ks[2][0]
+    d = ks[2][0] if ks[0] == 'call' and ks[1] == ('meth', 'keys') and len(ks[2]) == 1 else ks
+    if vs[0] == 'comp' and vs[1] in ('list', 'gen') and len(vs[3]) == 1 and len(vs[3][0][0]) == 1:
+        shape, src, ifs = vs[3][0]
+        if src == ('call', ('meth', 'values'), (d,), ()) and not ifs:
+            kb, vb = ('bv', base), ('bv', base + 1)
+            elt = T.replace(vs[2], lambda t: vb if t == shape[0] else None)
+            return ('comp', 'dict', ('tuple', (kb, elt)), (((kb, vb), ('call', ('meth', 'items'), (d,), ()), ()),))
+    return None
+
+
+def _canon_ext_call(name, args, kws):
+    """math.isclose(x, 0, rel_tol=0, abs_tol=t) tests |x| <= t, and so does numpy.isclose(x, 0, atol=t) whatever rtol is: one form, ISCLOSE(x, 0[, atol=t]) (default t = 1e-08)"""
+    from fractions import Fraction
+    if name in ('ISCLOSE', 'MISCLOSE') and len(args) == 2 and args[1] == ZERO:
+        k = dict(kws)
+        dflt = ('num', Fraction('1e-08'))
+        tol = None
+        if name == 'ISCLOSE' and set(k) <= {'atol', 'rtol'}:
+            tol = k.get('atol', dflt)
+        elif name == 'MISCLOSE' and k.get('rel_tol') == ZERO and set(k) <= {'abs_tol', 'rel_tol'}:
+            tol = k.get('abs_tol', ZERO)
+        if tol is not None:
+            return 'ISCLOSE', list(args), (() if tol == dflt else (('atol', tol),))
+    return name, args, kws
+
+
+def _as_nt(v):
+    """namedtuple('T', fields) -> the named-tuple type ('nt', 'nt:T', fields)"""
+    if v[0] == 'call' and v[1] in (('ext', 'collections.namedtuple'), ('ext', 'namedtuple')) and len(v[2]) >= 2 and v[2][0][0] == 'str':
+        spec = v[2][1]
+        fields = None
+        if spec[0] == 'str':
+            fields = spec[1].replace(',', ' ').split()
+        elif spec[0] in ('list', 'tuple') and all(z[0] == 'str' for z in spec[1]):
+            fields = [z[1] for z in spec[1]]
+        if fields:
+            tname = 'nt:' + v[2][0][1]
+            NT_FIELDS[tname] = tuple(fields)
+            dflt = dict(v[3]).get('defaults')
+            if dflt is not None and dflt[0] in ('tuple', 'list'):
+                NT_DEFAULTS[tname] = dict(zip(fields[len(fields) - len(dflt[1]):], dflt[1]))
+            return ('nt', tname, ','.join(fields))
+    return v
+
+
+def _callable_value(fv, sx):
+    if fv[0] == 'call' and fv[1] in (('ext', 'operator.attrgetter'), ('ext', 'operator.itemgetter'), ('ext', 'operator.methodcaller')):
+        return True
+    return fv[0] in ('nt', 'lambda') or (fv[0] == 'fn' and fv[1] in sx.M.funcs and (sx.M.funcs[fv[1]].cls is None or sx.M.funcs[fv[1]].is_static))
+
+
+def is_nt_attr(recv, f):
+    return isinstance(f, ast.Attribute) and recv is not None and ((recv[0] == 'nt' and f.attr in ('_make',)) or
+                                                                  (recv[0] == 'new' and recv[1] in NT_FIELDS and f.attr in ('_replace', '_asdict')))
+
+
+def _const_keyed(d):
+    return d[0] == 'dict' and 0 < len(d[1]) <= 12 and all(k is not None and k[0] in ('str', 'num', 'const') for k, _ in d[1])
+
+
+def _table_like(n):
+    """module-level value that is data: literals, containers of them, names/attribute chains (functions, classes), lambdas, and calls on such arguments"""
+    if isinstance(n, ast.Constant):
+        return True
+    if isinstance(n, (ast.Tuple, ast.List, ast.Set)):
+        return all(_table_like(x) for x in n.elts)
+    if isinstance(n, ast.Dict):
+        return all(k is not None and _table_like(k) for k in n.keys) and all(_table_like(v) for v in n.values)
+    if isinstance(n, ast.Name):
+        return True
+    if isinstance(n, ast.Attribute):
+        return _table_like(n.value)
+    if isinstance(n, ast.Lambda):
+        return True
+    if isinstance(n, ast.UnaryOp):
+        return _table_like(n.operand)
+    if isinstance(n, ast.BinOp):
+        return _table_like(n.left) and _table_like(n.right)
+    if isinstance(n, ast.Call):
+        return _table_like(n.func) and all(_table_like(a) for a in n.args) and all(_table_like(k.value) for k in n.keywords)
+    return False
 
 
 _EMPTY_FOLD = {'SUM': ZERO, 'LEN': ZERO, 'ANY': ('const', 'False'), 'ALL': ('const', 'True')}
